@@ -24,7 +24,7 @@ RECORD_CLASSES = ['noise', 'walk', 'sine', 'chirp', 'beat', 'impulse', 'hat', 's
                   'const', 'zeropad', 'intnoise']
 
 
-def record(rng, n, cls=None, amp=None, allow_const=True):
+def record(rng, n, cls=None, amp=None, allow_const=True, wide=False):
     """Return (float64 array of length n, class name)."""
     if cls is None:
         cls = RECORD_CLASSES[int(rng.integers(len(RECORD_CLASSES)))]
@@ -84,6 +84,9 @@ def record(rng, n, cls=None, amp=None, allow_const=True):
         x = rng.integers(-9, 10, size=n).astype(float)
     else:
         raise ValueError(cls)
+    if amp is None and wide and rng.random() < 0.25:
+        amp = 10.0 ** rng.uniform(-12, 12)      # micro .. huge amplitudes (opt-in)
+        return np.asarray(x, dtype=float) * amp, cls
     if amp is None:
         amp = 10.0 ** rng.uniform(-6, 6) if rng.random() < 0.3 else (1.0 if cls in ('plateau', 'intnoise') else 10.0 ** rng.uniform(-1, 1))
     if cls in ('plateau', 'intnoise', 'alt', 'const', 'impulse', 'step') and rng.random() < 0.7:
@@ -118,3 +121,32 @@ def container(rng, x, kinds=('f64', 'f32', 'i64', 'list', 'tuple')):
     if k == 'list':
         return [float(v) for v in x], k
     return tuple(float(v) for v in x), k
+
+
+def view_form(rng, x):
+    """Return (array, kind): the same numbers as a non-contiguous view, a reversed-twice view or a read-only array."""
+    k = int(rng.integers(3))
+    x = np.asarray(x)
+    if k == 0:
+        buf = np.empty(2 * len(x), dtype=x.dtype)
+        buf[::2] = x
+        buf[1::2] = 0
+        return buf[::2], 'strided-view'
+    if k == 1:
+        return np.ascontiguousarray(x[::-1])[::-1], 'negative-stride-view'
+    y = np.array(x, copy=True)
+    y.flags.writeable = False
+    return y, 'read-only'
+
+
+NARROW = [np.int8, np.int16, np.int32, np.uint8, np.uint16]
+
+
+def narrow_int(rng, n, plateaus=False):
+    """Integer record in a narrow/unsigned dtype using most of its range."""
+    dt_ = NARROW[int(rng.integers(len(NARROW)))]
+    ii = np.iinfo(dt_)
+    x = rng.integers(ii.min // 2 if ii.min < 0 else 0, ii.max // 2 + 1, size=n).astype(dt_)
+    if plateaus:
+        x = np.repeat(x, 2)[:n]
+    return x, np.dtype(dt_).name
